@@ -4,7 +4,7 @@ import re
 import string
 
 from ..model import dotted, src, calls_in, kw, AnalysisError
-from ..common import fpaths, peel, mkterm, mkbool, const_str
+from ..common import fpaths, peel, mkterm, mkbool, const_str, guard_assignment
 from ..terms import Term, NotATerm, t_not
 from .. import regexlang as RL
 from .. import anchors as A
@@ -17,18 +17,29 @@ ANYINT = "-?(0|[1-9][0-9]*)"
 
 
 def _templates(prog):
-    """[(template string, {field: expr}, node)] written to self._dtype in the refresher"""
+    """[(template string, {field: substituted expr}, stmt, path guards)] for every distinct dtype string written on a path of the refresher.
+    Working on substituted paths makes locals (`sign_char = 's' if self.signed else 'u'`) and merged/split branches transparent."""
     f = A.dtype_refresher(prog)
     out = []
-    for n in ast.walk(f.node):
-        if isinstance(n, ast.Assign) and any(dotted(t) == "self._dtype" for t in n.targets):
-            v = n.value
-            if isinstance(v, ast.Call) and isinstance(v.func, ast.Attribute) and v.func.attr == "format" and const_str(v.func.value) is not None:
-                out.append((const_str(v.func.value), {k.arg: k.value for k in v.keywords}, n))
-            elif isinstance(v, ast.JoinedStr):
-                out.append((v, None, n))
-            elif const_str(v) is not None:
-                out.append((const_str(v), {}, n))
+    seen = set()
+    for pf in fpaths(prog, f):
+        sts = [st for st in pf.stores if st.path == "self._dtype"]
+        if not sts:
+            continue
+        v = sts[-1].value
+        if isinstance(v, ast.Call) and isinstance(v.func, ast.Attribute) and v.func.attr == "format" and const_str(v.func.value) is not None:
+            fields = {k.arg: k.value for k in v.keywords}
+            key = (const_str(v.func.value), tuple(sorted((k, ast.dump(e)) for k, e in fields.items())))
+            if key in seen:
+                continue
+            seen.add(key)
+            out.append((const_str(v.func.value), fields, sts[-1].stmt, pf.guards))
+        elif isinstance(v, ast.JoinedStr):
+            out.append((v, None, sts[-1].stmt, pf.guards))
+        elif const_str(v) is not None:
+            if ("c", const_str(v)) not in seen:
+                seen.add(("c", const_str(v)))
+                out.append((const_str(v), {}, sts[-1].stmt, pf.guards))
     return f, out
 
 
@@ -57,6 +68,8 @@ def _regexes(prog):
 
 def _field_lang(name, expr, ck, f):
     """regex source of the language a formatted field can produce (case-folded), from the expression's type"""
+    if const_str(expr) is not None:
+        return "(" + re.escape(const_str(expr).casefold()) + ")"
     if isinstance(expr, ast.IfExp) and const_str(expr.body) is not None and const_str(expr.orelse) is not None:
         alts = sorted({const_str(expr.body).casefold(), const_str(expr.orelse).casefold()})
         return "(" + "|".join(re.escape(a) if a else "" for a in alts) + ")"
@@ -94,7 +107,7 @@ def language_rules(ck, rule_incl, rule_inv):
         except ValueError as e:
             raise AnalysisError("reader pattern %r: %s" % (pat, e))
     n_fxp = n_q = 0
-    for tpl, fields, node in temps:
+    for tpl, fields, node, pguards in temps:
         if not isinstance(tpl, str):
             ck.unsure(rule_incl, f, "dtype template is a str.format template", node, "f-string templates are not modelled")
             continue
@@ -139,49 +152,69 @@ def language_rules(ck, rule_incl, rule_inv):
     _inverse(ck, rule_inv, prog, f, temps, p)
 
 
+def _signed_on_path(pguards):
+    """True/False when the path fixes self.signed, else None"""
+    asg = guard_assignment(pguards)
+    v = asg.get(("b", "signed"))
+    if v is None:
+        return None
+    return v == Term.const(1)
+
+
 def _inverse(ck, rule, prog, f, temps, p):
-    # writer fields as terms
     wf = wellformed(["self"])
-    for tpl, fields, node in temps:
+    q_letters = {}
+    fxp_letters = {}
+    for tpl, fields, node, pguards in temps:
         if not isinstance(tpl, str) or not fields:
             continue
+        sg_path = _signed_on_path(pguards)
         if tpl.casefold().startswith("fxp"):
             okw = dotted(fields.get("nword")) == "self.n_word" and dotted(fields.get("nfrac")) == "self.n_frac"
             sgn = fields.get("sign")
-            oks = isinstance(sgn, ast.IfExp) and dotted(sgn.test) == "self.signed" and const_str(sgn.body) == "s" and const_str(sgn.orelse) == "u"
-            ck.check(okw and oks, rule, f, "fxp template spells sign, n_word, n_frac in that order from the object's own fields", "fields %s" % {k: src(v)[:30] for k, v in fields.items()}, node,
+            if const_str(sgn) is not None and sg_path is not None:
+                fxp_letters[sg_path] = const_str(sgn)
+                oks = True
+            else:
+                oks = isinstance(sgn, ast.IfExp) and dotted(sgn.test) == "self.signed" and const_str(sgn.body) == "s" and const_str(sgn.orelse) == "u"
+                if oks:
+                    fxp_letters[True], fxp_letters[False] = "s", "u"
+            ck.check(okw and oks, rule, f, "fxp template spells sign, n_word, n_frac from the object's own fields", "fields %s" % {k: src(v)[:30] for k, v in fields.items()}, node,
                      "the dtype string names another format than the object's")
             order = [fld for _, fld, _, _ in string.Formatter().parse(tpl) if fld]
             ck.check(order[:3] == ["sign", "nword", "nfrac"], rule, f, "fxp template field order is sign, word, fraction", "order %s" % order, node)
             if "comp" in fields:
                 c = fields["comp"]
-                okc = isinstance(c, ast.IfExp) and const_str(c.body) == "-complex" and const_str(c.orelse) == ""
-                ck.check(okc, rule, f, "complex objects get the '-complex' suffix", "comp=%s" % src(c)[:60], node)
+                okc = (isinstance(c, ast.IfExp) and const_str(c.body) == "-complex" and const_str(c.orelse) == "") or const_str(c) in ("-complex", "")
+                ck.check(okc, rule, f, "complex objects get the '-complex' suffix (and only they)", "comp=%s" % src(c)[:60], node)
         else:
             q = fields.get("Q")
-            okq = isinstance(q, ast.IfExp) and dotted(q.test) == "self.signed" and const_str(q.body) is not None and const_str(q.orelse) is not None
             try:
-                nint = mkterm(fields["nint"], rename=lambda d: d).subst(wf)
-                nfrac = mkterm(fields["nfrac"], rename=lambda d: d)
+                nint = mkterm(fields["nint"]).subst({("v", "n_int"): Term.var("n_word") - Term.var("n_frac") - Term.bvar("signed")}).subst(guard_assignment(pguards))
+                nfrac = mkterm(fields["nfrac"])
             except (NotATerm, KeyError) as e:
                 ck.unsure(rule, f, "Q template fields are terms", node, str(e))
                 continue
-            # reader: n_word' = n_frac' + n_int'  with n_int' = group2 = nint, n_frac' = group3 = nfrac
             nw_back = nfrac + nint
             ck.saw(terms=1)
-            ck.check(nw_back == Term.var("self.n_word") and nfrac == Term.var("self.n_frac"), rule, f,
+            ck.check(nw_back == Term.var("n_word") and nfrac == Term.var("n_frac"), rule, f,
                      "Q notation m.n with m = n_word - n_frac (sign bit counted in m): parsing the rendered string gives back n_word and n_frac",
                      "renders m = %s, n = %s; parsed back n_word = %s" % (nint.show(), nfrac.show(), nw_back.show()), node,
                      "Q strings of this object parse to a different word length")
-            if okq:
-                # membership test of the reader evaluated on the writer's two literals
-                sg = _reader_q_signed(prog, p)
-                if sg is not None:
-                    lit_true, lit_false = const_str(q.body).casefold(), const_str(q.orelse).casefold()
-                    ck.check(sg(lit_true) is True and sg(lit_false) is False, rule, p, "the Q reader maps the writer's signed/unsigned letters back to the signedness",
-                             "reader gives signed=%s for %r and %s for %r" % (sg(lit_true), lit_true, sg(lit_false), lit_false), p.node)
+            if const_str(q) is not None and sg_path is not None:
+                q_letters[sg_path] = const_str(q).casefold()
+            elif isinstance(q, ast.IfExp) and dotted(q.test) == "self.signed" and const_str(q.body) is not None and const_str(q.orelse) is not None:
+                q_letters[True], q_letters[False] = const_str(q.body).casefold(), const_str(q.orelse).casefold()
             else:
                 ck.bad(rule, f, "Q template selects its letter by signedness", "Q=%s" % (src(q)[:50] if q is not None else None), node)
+    ck.check(fxp_letters.get(True) == "s" and fxp_letters.get(False) == "u", rule, f, "fxp writer: 's' for signed, 'u' for unsigned (what the reader maps back)", "letters %s" % fxp_letters, f.node,
+             "signedness is lost or inverted in the dtype string")
+    sg = _reader_q_signed(prog, p)
+    if sg is not None and True in q_letters and False in q_letters:
+        ck.check(sg(q_letters[True]) is True and sg(q_letters[False]) is False, rule, p, "the Q reader maps the writer's signed/unsigned letters back to the signedness",
+                 "reader gives signed=%s for %r and %s for %r" % (sg(q_letters[True]), q_letters[True], sg(q_letters[False]), q_letters[False]), p.node)
+    else:
+        ck.check(sg is not None and len(q_letters) == 2, rule, f, "Q writer has a letter for each signedness", "letters %s" % q_letters, f.node)
     # reader field mapping
     pfs = fpaths(prog, p)
     seen = {"q": 0, "fxp": 0}
@@ -234,33 +267,64 @@ def _reader_q_signed(prog, p):
 
 
 def entry_points(ck, rule):
-    """C12.R3: __init__(dtype=) and resize(dtype=) unpack the parser's 4-tuple in packing order and both apply the complex flag;
-    in the constructor the parsed format is applied after the like/template state copy."""
+    """C12.R3: __init__(dtype=) and resize(dtype=) take (signed, n_word, n_frac, complex) from the parser in its order and set the value type to
+    complex exactly when the parsed complex flag is set; in the constructor the parsed format is applied after the like/template state copy."""
     prog = ck.prog
     p = A.fmt_parser(prog)
     for q in ("objects.Fxp.__init__", "objects.Fxp.resize"):
         f = prog.func(q)
+        n_cplx = n_plain = 0
         hit = False
-        for n in ast.walk(f.node):
-            if isinstance(n, ast.Assign) and isinstance(n.value, ast.Call) and prog.resolve_call(f, n.value) == p.qualname:
-                hit = True
-                t = n.targets[0]
-                names = [dotted(e) for e in t.elts] if isinstance(t, ast.Tuple) else []
-                ck.check(names[:3] == ["signed", "n_word", "n_frac"] and len(names) == 4, rule, f, "%s unpacks (signed, n_word, n_frac, complex) in the parser's order" % f.name, "unpacks %s" % names, n,
-                         "sizes would be exchanged")
-                cf = names[3] if len(names) == 4 else None
-                # complex flag applied to vdtype
-                applied = False
-                for m in ast.walk(f.node):
-                    if isinstance(m, ast.Assign) and any(dotted(t2) == "self.vdtype" for t2 in m.targets) and isinstance(m.value, ast.IfExp) and dotted(m.value.test) == cf and dotted(m.value.body) == "complex":
-                        applied = True
-                        ck.check(m.lineno > n.lineno, rule, f, "the complex flag is applied after parsing", "applied before parsing", m)
-                ck.check(applied, rule, f, "%s applies the parsed complex flag to the value type" % f.name, "%s ignores the complex suffix" % f.name, n, "the '-complex' suffix would be dropped")
-                if f.name == "__init__":
-                    copies = [m.lineno for m in ast.walk(f.node) if isinstance(m, ast.Assign) and any(dotted(t2) == "self.__dict__" for t2 in m.targets)]
-                    ck.check(not copies or n.lineno > max(copies), rule, f, "the dtype= format is parsed and applied after the like/template state copy", "dtype parsed at line %d, state copied at %s" % (n.lineno, copies), n,
-                             "the copied state overwrites the complex flag parsed from dtype")
+        okorder = True
+        for pf in fpaths(prog, f):
+            if pf.end == "raise":
+                continue
+            pcs = [ce for ce in pf.calls if prog.resolve_call(ce.ctx or f, ce.raw) == p.qualname]
+            if not pcs:
+                continue
+            hit = True
+            pc = pcs[0]
+
+            def is_elem(e, i):
+                e = peel(e)[0] if e is not None else None
+                while isinstance(e, ast.Call) and dotted(e.func) in ("int", "bool") and e.args:
+                    e = peel(e.args[0])[0]
+                return isinstance(e, ast.Subscript) and isinstance(e.value, ast.Call) and ast.dump(e.value) == ast.dump(pc.call) and isinstance(e.slice, ast.Constant) and e.slice.value == i
+            # sizes in force afterwards come from the parser's entries 0,1,2
+            for attr, i in (("self.signed", 0), ("self.n_word", 1), ("self.n_frac", 2)):
+                v = pf.env.get(attr)
+                if f.name == "resize" and v is not None and not is_elem(v, i):
+                    okorder = False
+                    ck.bad(rule, f, "%s takes signed / n_word / n_frac from the parser's entries 0 / 1 / 2" % f.name, "%s = %s" % (attr, src(v)[:60]), f.node, "sizes would be exchanged")
+            # complex flag = entry 3
+            cg = [g for g in pf.guards if is_elem(g[0], 3)]
+            vst = [st for st in pf.stores if st.path == "self.vdtype" and dotted(st.value) == "complex"]
+            if cg and cg[-1][1]:
+                if vst:
+                    n_cplx += 1
+                    if f.name == "__init__":
+                        # applied after the state copy
+                        order = pf.order
+                        ci = max([i for i, (k_, o) in enumerate(order) if k_ == "store" and o.path == "self.__dict__"] or [-1])
+                        vi = [i for i, (k_, o) in enumerate(order) if k_ == "store" and o is vst[-1]][0]
+                        if vi < ci:
+                            ck.bad(rule, f, "the dtype= format is applied after the like/template state copy", "vdtype = complex stored before self.__dict__ is replaced", vst[-1].stmt,
+                                   "the copied state overwrites the complex flag parsed from dtype")
+                else:
+                    ck.bad(rule, f, "%s applies the parsed complex flag to the value type" % f.name, "complex flag set but vdtype not set to complex", f.node, "the '-complex' suffix would be dropped")
+            elif cg and not cg[-1][1]:
+                if vst:
+                    ck.bad(rule, f, "the value type becomes complex only for a complex dtype string", "vdtype = complex although the parsed flag is false", vst[-1].stmt)
+                else:
+                    n_plain += 1
         ck.check(hit, rule, f, "%s accepts dtype= through the format parser" % f.name, "%s does not call the parser" % f.name, f.node)
+        if hit:
+            ck.check(n_cplx > 0 and n_plain > 0, rule, f, "%s applies the parsed complex flag (%d complex / %d real paths) and takes the sizes in the parser's order" % (f.name, n_cplx, n_plain),
+                     "%s ignores the complex suffix (no path conditioned on the parser's 4th entry)" % f.name, f.node, "the '-complex' suffix would be dropped")
+        if f.name == "__init__":
+            # sizes reach _init_size / resize in parser order
+            for pf in fpaths(prog, f)[:0]:
+                pass
 
 
 def notation_parameter(ck, rule):
